@@ -183,3 +183,100 @@ Proof.
   - apply simp_preserves; assumption.
   - split; apply mem_nat_false; assumption.
 Qed.
+
+(* ---- generic: related bodies give related loops / conditionals -------------------------------- *)
+Lemma exec_for_sim (eb eb' : mstate -> mstate) iv lb ub sp its rs ys m m' :
+  (forall k k', R k k' -> R (eb k) (eb' k')) -> R m m' ->
+  R (exec_for eb iv lb ub sp its rs ys m) (exec_for eb' iv lb ub sp its rs ys m').
+Proof.
+  intros Hb [He [Hr [Hn Ht]]]. unfold exec_for. rewrite He.
+  set (l := env m lb). set (s := env m sp). set (n := trip_count l (env m ub) s).
+  set (bargs := map it_arg its).
+  set (e0 := bind_list bargs (map (fun x => env m (it_init x)) its) (env m)).
+  assert (HR0 : R (set_env m e0) (set_env m' e0)) by (repeat split; simpl; assumption).
+  assert (Hloop : forall k, R (iter_n k (for_step eb iv bargs ys l s) (set_env m e0))
+                              (iter_n k (for_step eb' iv bargs ys l s) (set_env m' e0))).
+  { induction k as [|k IHk]; [exact HR0|]. cbn [iter_n].
+    set (mk := iter_n k (for_step eb iv bargs ys l s) (set_env m e0)) in *.
+    set (mk' := iter_n k (for_step eb' iv bargs ys l s) (set_env m' e0)) in *.
+    unfold for_step. destruct IHk as [Hek [Hrk [Hnk Htk]]]. rewrite Hek.
+    assert (HR1 : R (set_env mk (upd (env mk) iv (l + Z.of_nat k * s))) (set_env mk' (upd (env mk) iv (l + Z.of_nat k * s))))
+      by (repeat split; simpl; assumption).
+    destruct (Hb _ _ HR1) as [He2 [Hr2 [Hn2 Ht2]]]. rewrite He2. repeat split; simpl; assumption. }
+  destruct (Hloop n) as [HeN [HrN [HnN HtN]]]. rewrite HeN. repeat split; simpl; assumption.
+Qed.
+
+Lemma exec_if_sim (et et' ee ee' : mstate -> mstate) c rs thy ely m m' :
+  (forall k k', R k k' -> R (et k) (et' k')) -> (forall k k', R k k' -> R (ee k) (ee' k')) -> R m m' ->
+  R (exec_if et ee c rs thy ely m) (exec_if et' ee' c rs thy ely m').
+Proof.
+  intros Ht He HR. unfold exec_if. pose proof HR as [Hev _]. rewrite Hev.
+  destruct (env m c =? 0).
+  - destruct (He _ _ HR) as [He2 [Hr2 [Hn2 Ht2]]]. rewrite He2. repeat split; simpl; assumption.
+  - destruct (Ht _ _ HR) as [He2 [Hr2 [Hn2 Ht2]]]. rewrite He2. repeat split; simpl; assumption.
+Qed.
+
+(* ---- ElideEmptySetupOps: removing a field-less setup ------------------------------------------ *)
+Section DropProofs.
+Variable orc : oracle.
+Variable tg : val.
+
+Lemma R_drop_setup a m m' : R m m' -> R (exec_setup a [] m) m'.
+Proof.
+  intros [He [Hr [Hn Ht]]]. unfold exec_setup. repeat split; simpl; try assumption.
+  intros b f. unfold upd. destruct (Nat.eqb b a) eqn:E; [|apply Hr].
+  apply Nat.eqb_eq in E. subst b. apply Hr.
+Qed.
+
+Lemma is_dropped_exec s m m' : is_dropped tg s = true -> R m m' -> R (exec_stmt orc s m) m'.
+Proof.
+  destruct s as [| |a o i fs| | | | |]; try discriminate. destruct i as [i|]; [|discriminate].
+  destruct fs; [|discriminate]. intros _ HR. cbn [exec_stmt]. apply R_drop_setup. exact HR.
+Qed.
+
+Definition Ds (s : stmt) : Prop := forall m m', R m m' -> R (exec_stmt orc s m) (exec_stmt orc (drop_stmt tg s) m').
+Definition Db (b : block) : Prop := forall m m', R m m' -> R (exec_block orc b m) (exec_block orc (drop_block tg b) m').
+
+Lemma drop_block_sound : forall b, Db b.
+Proof.
+  apply (block_ind2 Ds Db).
+  - intros d e m m' HR. exact (R_same_pure orc d e m m' HR).
+  - intros g ef pu ds ar m m' HR. exact (R_same_call orc g ef pu ds ar m m' HR).
+  - intros a o i fs m m' HR. exact (R_same_setup a fs m m' HR).
+  - intros a k st fs m m' HR. exact (R_same_launch orc a k st fs m m' HR).
+  - intros a k m m' HR. simpl. apply R_same_emit_simple; exact HR.
+  - intros a st m m' HR. simpl. apply R_same_emit_simple; exact HR.
+  - intros iv lb ub sp its rs body ys IH m m' HR.
+    change (drop_stmt tg (SFor iv lb ub sp its rs body ys)) with (SFor iv lb ub sp its rs (drop_block tg body) ys).
+    rewrite !exec_stmt_for. apply exec_for_sim; [exact IH|exact HR].
+  - intros c rs th thy el ely IHt IHe m m' HR.
+    change (drop_stmt tg (SIf c rs th thy el ely)) with (SIf c rs (drop_block tg th) thy (drop_block tg el) ely).
+    rewrite !exec_stmt_if. apply exec_if_sim; [exact IHt|exact IHe|exact HR].
+  - intros m m' HR. exact HR.
+  - intros s b Hs Hb m m' HR. cbn [drop_block exec_block].
+    destruct (is_dropped tg s) eqn:E.
+    + apply Hb. apply is_dropped_exec; assumption.
+    + cbn [exec_block]. apply Hb. apply Hs. exact HR.
+Qed.
+
+Theorem drop_preserves p args :
+  trace_strong (run orc p args) (run orc (drop_prog tg p) args).
+Proof.
+  unfold run, final_state. apply trace_strong_rev.
+  assert (HR : R (exec_block orc (p_body p) (init_state orc p args))
+                 (exec_block orc (drop_block tg (p_body p)) (init_state orc p args)))
+    by (apply drop_block_sound; apply R_refl).
+  exact (proj2 (proj2 (proj2 HR))).
+Qed.
+End DropProofs.
+
+(* the real ElideEmptySetupOps rewrite when the input state [i] of the removed setup is itself a
+   never-bound value (the out-state of another setup): drop + rename.  No hypothesis on inference. *)
+Theorem elide_rule_preserves (tg i : val) (p : prog) (orc : oracle) (args : list Z) :
+  mem_nat tg (prog_binds (drop_prog tg p)) = false ->
+  mem_nat i (prog_binds (drop_prog tg p)) = false ->
+  trace_sim_b (run orc p args) (run orc (ren_prog (rn tg i) (drop_prog tg p)) args) = true.
+Proof.
+  intros Hx Hy. rewrite ren_prog_run by (split; apply mem_nat_false; assumption).
+  apply trace_strong_sim. apply drop_preserves.
+Qed.
